@@ -11,7 +11,8 @@ META = {
             'aggregates, adversarial inventories and usage) x generated '
             'valid queries (<=1 unsuffixed + <=3 suffixed + resourceless '
             'groups, all filters, microversions 1.10-1.39; a quarter of the '
-            'queries aimed at an exclusion boundary), each world/query '
+            'queries aimed at an exclusion boundary or at nested '
+            'same_subtree constraints), each world/query '
             'batch under 3 PYTHONHASHSEED values; the real unlimited answer '
             'is compared two-sidedly with a brute-force enumerator written '
             'from the statement (MUST subset of actual subset of MAY, no '
@@ -35,8 +36,8 @@ for _f in FEATURE_FLOOR:
 def plan(tier, seed, scale):
     n_worlds = int((200 if tier == 'quick' else 4000) * scale)
     per = 13 if tier == 'quick' else 80
-    nq = 20 if tier == 'quick' else 32
-    nx = 5 if tier == 'quick' else 7       # of which exclusion-boundary
+    nq = 22 if tier == 'quick' else 34
+    nx = 7 if tier == 'quick' else 9       # of which aimed families
     shards = []
     i = 0
     while i < n_worlds:
@@ -112,8 +113,12 @@ def run_shard(spec, res):
             for k in range(spec['queries']):
                 if k >= spec['queries'] - spec.get('exclusion', 0) and \
                         v.roots:
-                    q = queries.gen_exclusion_query(rng, w, v)
-                    res.count('exclusion_boundary_queries')
+                    if k % 2:
+                        q = queries.gen_subtree_query(rng, w, v)
+                        res.count('subtree_family_queries')
+                    else:
+                        q = queries.gen_exclusion_query(rng, w, v)
+                        res.count('exclusion_boundary_queries')
                 else:
                     q = queries.gen_ac_query(
                         rng, w, view=v if rng.random() < 0.6 else None)
